@@ -128,6 +128,21 @@ CHECKS['C19'] = dict(
     note='Not decided: that INSERT coercion reproduces the exact value (special floats, precision).',
     design='§4 C19')
 
+CHECKS['C06'] = dict(
+    technique='visitor-completeness analysis (T9) of the WHERE-pushdown table-reference walker against the Expression ADT; per-variant truthiness-table agreement (T8) of all SELECT-side keep/drop functions',
+    text='Decides that every Expression variant with expression children is visited or answered conservatively by the walker that decides '
+         'which table a conjunct may be pushed to (children are read from the ADT, so new variants are covered), and that all SELECT-side '
+         'functions turning a predicate value into keep/drop share one per-variant table (bool / non-zero / false / error).',
+    note='Not decided: Kleene semantics of AND/OR/NOT on every value, LIKE/BETWEEN semantics.',
+    design='§4 C06')
+CHECKS['C09'] = dict(
+    technique='per-variant truthiness-table agreement (T8) between SELECT\'s filter and the DML row selectors; error-arm analysis; coercion-before-index-probe check on the PK fast paths',
+    text='Decides that DELETE and UPDATE classify the evaluated WHERE value per SqlValue variant exactly as SELECT does and do not swallow '
+         'evaluation errors, and that their primary-key fast paths coerce the literal before probing the hash index. Finite table '
+         'comparison, hence valid for all predicates and data.',
+    note='Not decided: SET expression evaluation on pre-update values, INSERT coercion (value-level).',
+    design='§4 C09')
+
 NOT_APPLICABLE = {
     'C01': 'Equality of result multisets with a reference engine is a value-level semantic equivalence over all queries and data; no structural necessary condition beyond those claimed under C06/C21/C24 exists and a static rule cannot stand in for an oracle.',
     'C03': 'Columnar-vs-row agreement is determined by computed values (empty input, NULL handling, sums); a rejected shape falls back safely, so no table-agreement obligation exists whose breach necessarily changes results.',
